@@ -119,6 +119,7 @@ fn run_case(word: &str, docs: &[DocSpec], ks: &[usize], snippet: usize, drv: &mu
     if max_slices_per_doc >= 2 { sum.branch("doc-with-several-slices"); }
     if big.hits.is_empty() { sum.branch("no-hits"); }
     let mut nontrivial = false;
+    let mut disagreed = false;
     for &k in ks {
         // follow the cursor chain with page size k
         let ev_k = evaluated(&order, &toks, window, k.max(1));
@@ -139,7 +140,9 @@ fn run_case(word: &str, docs: &[DocSpec], ks: &[usize], snippet: usize, drv: &mu
             if let Some(d) = drv.as_mut() {
                 let m = d.ask(&format!("page {off} {k} {}", enc_docs(&ev_k)));
                 let i = format!("hits {} | total {} | next {}", show_hits(&r.hits), r.total, r.next.clone().unwrap_or("none".into()));
-                if m != i { sum.disagreement(&format!("page k={k} offset={off}"), case_json.clone(), &m, &i); return; }
+                // keep going after a disagreement: the oracle below decides whether the implementation
+                // (not just the model) is wrong on this input
+                if m != i && !disagreed { disagreed = true; sum.disagreement(&format!("page k={k} offset={off}"), case_json.clone(), &m, &i); }
             }
             let next = r.next.clone();
             pages.push(r);
@@ -159,7 +162,7 @@ fn run_case(word: &str, docs: &[DocSpec], ks: &[usize], snippet: usize, drv: &mu
             let sig = "page-size-changes-per-document-slice-budget";
             let budget_changed_slices = ev_k != ev_big;
             if max_slices_per_doc > k.max(1) { sum.branch("budget-drops-slices"); } else if budget_changed_slices { sum.branch("budget-cuts-merged-slice"); }
-            let explained = budget_changed_slices && totals_const && !repeated && drv.is_some()
+            let explained = budget_changed_slices && totals_const && !repeated && drv.is_some() && !disagreed
                 && concat == ev_k.iter().flat_map(|d| d.3.iter().filter_map(|(a, b)| { let (a, b) = ((*a).min(d.2), (*b).min(d.2)); if b > a { Some((d.0, d.1 + a, d.1 + b)) } else { None } }).collect::<Vec<_>>()).collect::<Vec<_>>();
             let what = format!("k={k}: pages give {} (totals {:?}); one request with top_k=50 gives {} (total {})", show_hits(&concat), totals, show_hits(&big.hits), big.total);
             if explained && known.iter().any(|s| s == sig) { sum.known_finding(sig, &what, case_json.clone()); sum.branch("known-finding-reproduced"); }
